@@ -8,7 +8,7 @@ cp -n /var/tmp/iref-verif-dev/harness/Cargo.lock /var/tmp/iref-probe/harness/Car
 cd /var/tmp/iref-probe/harness
 tag=$(echo $h | tr ':' '_')
 s=$(date +%s)
-RUSTFLAGS="--cfg iref_verif" CARGO_NET_OFFLINE=true /usr/bin/time -v -o /var/tmp/iref-probe/$tag.time timeout $to cargo kani -Z stubbing -Z concrete-playback --concrete-playback=print --harness $h --exact --target-dir /var/tmp/iref-probe/kt_$tag > /var/tmp/iref-probe/$tag.log 2>&1
+RUSTFLAGS="--cfg iref_verif" CARGO_NET_OFFLINE=true /usr/bin/time -v -o /var/tmp/iref-probe/$tag.time timeout $to cargo kani -Z stubbing -Z concrete-playback --concrete-playback=print $PROBE_ARGS --harness $h --exact --target-dir /var/tmp/iref-probe/kt_$tag > /var/tmp/iref-probe/$tag.log 2>&1
 e=$(date +%s)
 echo "$h wall=$((e-s))s rss=$(grep 'Maximum resident' /var/tmp/iref-probe/$tag.time | awk '{printf "%.1fGB", $NF/1048576}') $(grep -o 'VERIFICATION:- [A-Z]*\|out of memory' /var/tmp/iref-probe/$tag.log | head -1) $(grep 'Verification Time' /var/tmp/iref-probe/$tag.log) $(grep -o '[0-9]* variables, [0-9]* clauses' /var/tmp/iref-probe/$tag.log | tail -1)"
 grep "Failed Checks" -A2 /var/tmp/iref-probe/$tag.log | head -6
